@@ -27,7 +27,7 @@ done
 if [ -n "$(git -C /repo status --porcelain --untracked-files=no)" ]; then
   echo "refusing: /repo working tree is dirty" >&2; exit 2
 fi
-restore() { git -C /repo checkout -- . ; }
+restore() { git -C /repo checkout -- . ; git -C /repo clean -fdq src ; }
 trap restore EXIT
 
 if [ ${#NAMES[@]} -eq 0 ]; then
